@@ -32,9 +32,6 @@ var reviewedNonNil = map[string]string{
 
 // reviewed index sites: function -> expression (as printed) -> reason
 var reviewedIndex = map[string]map[string]string{
-	"(*internal/generate/golang.generator).generateLexer": {
-		"FinalStates[i]": "data.DFA.FinalStates is made with len(g.Params.Spec.Definitions) a few lines above and i ranges over the same g.Params.Spec.Definitions",
-	},
 	"cmd/emerge.main": {
 		"Args[1:]": "os.Args[0] is the program name: the runtime guarantees len(os.Args) >= 1",
 	},
@@ -51,6 +48,7 @@ func runC14(c *Ctx) {
 	c.Rule("R14.5", 1, "a pointer field that some constructor leaves nil is dereferenced only under a nil test")
 	c.Rule("R14.6", 3, "every recursion in module code descends structurally on an argument (its depth is bounded by the nesting of a value, not by the length of the input)")
 
+	curC14 = c
 	c.mute = map[string]bool{"R4.2": true}
 	g := extractEBNF(c, "R14.2")
 	if g == nil {
@@ -255,7 +253,7 @@ func lenOf(v ssa.Value, x ssa.Value) bool {
 			return true
 		}
 	}
-	if mk, ok := x.(*ssa.MakeSlice); ok {
+	if mk := madeSliceOf(x); mk != nil {
 		if mk.Len == v {
 			return true
 		}
@@ -1799,4 +1797,33 @@ func allFuncsOfPkgDeep(p *ssa.Package) []*ssa.Function {
 		add(f)
 	}
 	return out
+}
+
+// curC14 gives the index rules access to the module-wide index of field stores.
+var curC14 *Ctx
+
+// madeSliceOf: x is a make([]T, n) itself, or a load of a struct field that is written exactly once in the whole module, with
+// such a make (so every value ever read from that field of a constructed object has that length).
+func madeSliceOf(x ssa.Value) *ssa.MakeSlice {
+	if mk, ok := x.(*ssa.MakeSlice); ok {
+		return mk
+	}
+	u, ok := x.(*ssa.UnOp)
+	if !ok || u.Op != token.MUL || curC14 == nil {
+		return nil
+	}
+	fa, ok := u.X.(*ssa.FieldAddr)
+	if !ok {
+		return nil
+	}
+	T := fa.X.Type()
+	if pt, ok := T.Underlying().(*types.Pointer); ok {
+		T = pt.Elem()
+	}
+	stores := curC14.fieldStores(T, fa.Field)
+	if len(stores) != 1 || stores[0].Parent() != u.Parent() {
+		return nil
+	}
+	mk, _ := stores[0].Val.(*ssa.MakeSlice)
+	return mk
 }
